@@ -25,7 +25,9 @@ def noExt : Ext Rat := fun _ _ _ => .nil
 
 /-- case-split the decision tree that symbolic evaluation leaves and close the leaves by linear arithmetic -/
 macro "minigo_close" : tactic =>
-  `(tactic| (all_goals (repeat' split)
-             all_goals (first | done | omega | (simp_all <;> omega))))
+  `(tactic| first
+     | (all_goals (repeat' split)
+        all_goals (first | done | omega | (simp_all <;> omega)))
+     | (all_goals grind))
 
 end F1.Props.Refine
